@@ -66,6 +66,13 @@ func genC15(t *rapid.T) (C15Case, bool) {
 	b := a.Clone()
 	var c C15Case
 	applied := false
+	if rapid.Bool().Draw(t, "wireEdit") {
+		// an edit from C04's table: each changes how some value is encoded
+		if kind, where, ok := wireEdit(t, b); ok {
+			c = C15Case{A: a, B: b, Edit: "wire:" + kind + "@" + where}
+			applied = true
+		}
+	}
 	for tries := 0; tries < 8 && !applied; tries++ {
 		e := model.EvoEdits[rapid.IntRange(0, len(model.EvoEdits)-1).Draw(t, "edit")]
 		if e.Name == "add-alias" || e.Name == "rename-through-alias" {
